@@ -450,13 +450,13 @@ Proof.
     exists e, sg, (d :: t). repeat split; try assumption; try discriminate.
     cbn [app]. rewrite <- app_assoc. reflexivity. }
   destruct r0 as [|c r'].
-  - intros H. apply (Hgen ENone []); try reflexivity; try discriminate. exact H.
+  - intros H. apply (Hgen ENone []); try reflexivity; try discriminate; try exact H.
   - destruct (plus && (c =? PLUS)) eqn:Ep; [|destruct (minus && (c =? MINUS)) eqn:Em].
     + apply andb_true_iff in Ep as [Ep1 Ep2]. apply N.eqb_eq in Ep2; subst c. cbn [orb].
-      intros H. apply (Hgen EPlus r'); try reflexivity; try discriminate; [intros _; assumption|exact H].
+      intros H. apply (Hgen EPlus r'); try reflexivity; try discriminate; try exact H; try (intros _; assumption).
     + apply andb_true_iff in Em as [Em1 Em2]. apply N.eqb_eq in Em2; subst c. cbn [orb].
-      intros H. apply (Hgen EMinus r'); try reflexivity; try discriminate; [intros _; assumption|exact H].
-    + cbn [orb]. intros H. apply (Hgen ENone (c :: r')); try reflexivity; try discriminate. exact H.
+      intros H. apply (Hgen EMinus r'); try reflexivity; try discriminate; try exact H; try (intros _; assumption).
+    + cbn [orb]. intros H. apply (Hgen ENone (c :: r')); try reflexivity; try discriminate; try exact H.
 Qed.
 
 Lemma match_exp_minus_spec s v r : match_exp_minus s = Some (v, r) ->
@@ -469,6 +469,8 @@ Proof.
   intros H; inversion H; subst. exists e, (d :: t). repeat split; try assumption; discriminate.
 Qed.
 
+Ltac app_norm := repeat first [rewrite <- app_assoc | rewrite app_nil_r | progress cbn [app]].
+
 Theorem num_token_sound s k v r : num_token s = Some (k, v, r) ->
   s = v ++ r /\
   match k with
@@ -480,44 +482,44 @@ Proof.
   - intros H; inversion H; subst. unfold match_float in Ef.
     destruct (opt_minus s) as [m r0] eqn:Em. apply opt_minus_spec in Em as (neg & -> & ->).
     destruct (span_digits r0) as [ds r1] eqn:Es. apply span_digits_spec in Es as (-> & Hd & _).
-    destruct ds as [|d0 t0] eqn:Eds; [discriminate|]. rewrite <- Eds in *.
-    assert (Hn : ds <> []) by (rewrite Eds; discriminate).
+    destruct ds as [|d0 t0]; [discriminate|]. set (ds := d0 :: t0) in *.
+    assert (Hn : ds <> []) by (unfold ds; discriminate).
     assert (Alt2 : match match_exp_minus r1 with
                    | Some (ex, r2) => Some (sign_src neg ++ ds ++ ex, r2) | None => None end = Some (v, r) ->
                    sign_src neg ++ ds ++ r1 = v ++ r /\ exists sp, floatsp_wf sp /\ v = floatsp_src sp).
     { destruct (match_exp_minus r1) as [[ex r2]|] eqn:E2; [|discriminate].
       apply match_exp_minus_spec in E2 as (e & xs & -> & -> & He & Hx & Hxn).
-      intros H'; inversion H'; subst. split; [rewrite <- !app_assoc; reflexivity|].
+      intros H'; inversion H'; subst. split; [app_norm; reflexivity|].
       exists {| f_neg := neg; f_ds := ds; f_frac := None; f_exp := Some (e, EMinus, xs) |}.
-      split; [repeat split; assumption|]. unfold floatsp_src. cbn. reflexivity. }
+      split; [repeat split; assumption|]. unfold floatsp_src; cbn [f_neg f_ds f_frac f_exp expsign_src]; app_norm; reflexivity. }
     destruct r1 as [|c r2]; [apply Alt2; exact Ef|].
     destruct (N.eqb_spec c DOT) as [->|_]; [|apply Alt2; exact Ef].
     destruct (span_digits r2) as [fs r3] eqn:Es2. apply span_digits_spec in Es2 as (-> & Hfs & _).
-    destruct fs as [|f0 ft] eqn:Efs; [apply Alt2; exact Ef|]. rewrite <- Efs in *.
-    assert (Hfn : fs <> []) by (rewrite Efs; discriminate).
+    destruct fs as [|f0 ft]; [apply Alt2; exact Ef|]. set (fs := f0 :: ft) in *.
+    assert (Hfn : fs <> []) by (unfold fs; discriminate).
     destruct (match_exp true true r3) as [[ex r4]|] eqn:E3.
     + apply match_exp_spec in E3 as (e & sg & xs & -> & -> & He & Hx & Hxn & _).
-      inversion Ef; subst. split; [rewrite <- !app_assoc; cbn [app]; rewrite <- !app_assoc; reflexivity|].
+      inversion Ef; subst. split; [app_norm; reflexivity|].
       exists {| f_neg := neg; f_ds := ds; f_frac := Some fs; f_exp := Some (e, sg, xs) |}.
-      split; [repeat split; assumption|]. unfold floatsp_src. cbn. rewrite <- !app_assoc. reflexivity.
-    + inversion Ef; subst. split; [rewrite <- !app_assoc; cbn [app]; rewrite <- !app_assoc; reflexivity|].
+      split; [repeat split; assumption|]. unfold floatsp_src; cbn [f_neg f_ds f_frac f_exp]; app_norm; reflexivity.
+    + inversion Ef; subst. split; [app_norm; reflexivity|].
       exists {| f_neg := neg; f_ds := ds; f_frac := Some fs; f_exp := None |}.
-      split; [repeat split; assumption|]. unfold floatsp_src. cbn. rewrite app_nil_r. reflexivity.
+      split; [repeat split; assumption|]. unfold floatsp_src; cbn [f_neg f_ds f_frac f_exp]; app_norm; reflexivity.
   - destruct (match_int s) as [[iv ir]|] eqn:Ei; [|discriminate].
     intros H; inversion H; subst. unfold match_int in Ei.
     destruct (opt_minus s) as [m r0] eqn:Em. apply opt_minus_spec in Em as (neg & -> & ->).
     destruct (span_digits r0) as [ds r1] eqn:Es. apply span_digits_spec in Es as (-> & Hd & _).
-    destruct ds as [|d0 t0] eqn:Eds; [discriminate|]. rewrite <- Eds in *.
-    assert (Hn : ds <> []) by (rewrite Eds; discriminate).
+    destruct ds as [|d0 t0]; [discriminate|]. set (ds := d0 :: t0) in *.
+    assert (Hn : ds <> []) by (unfold ds; discriminate).
     destruct (match_exp true false r1) as [[ex r2]|] eqn:E3.
     + apply match_exp_spec in E3 as (e & sg & xs & -> & -> & He & Hx & Hxn & _ & Hm).
-      inversion Ei; subst. split; [rewrite <- !app_assoc; reflexivity|].
+      inversion Ei; subst. split; [app_norm; reflexivity|].
       destruct sg; [| |discriminate (Hm eq_refl)].
       * exists {| i_neg := neg; i_ds := ds; i_exp := Some (e, false, xs) |}.
-        split; [repeat split; assumption|reflexivity].
+        split; [repeat split; assumption|unfold intsp_src; cbn [i_neg i_ds i_exp plus_src expsign_src]; app_norm; reflexivity].
       * exists {| i_neg := neg; i_ds := ds; i_exp := Some (e, true, xs) |}.
-        split; [repeat split; assumption|reflexivity].
-    + inversion Ei; subst. split; [rewrite <- !app_assoc; reflexivity|].
+        split; [repeat split; assumption|unfold intsp_src; cbn [i_neg i_ds i_exp plus_src expsign_src]; app_norm; reflexivity].
+    + inversion Ei; subst. split; [app_norm; reflexivity|].
       exists {| i_neg := neg; i_ds := ds; i_exp := None |}.
-      split; [repeat split; assumption|]. unfold intsp_src. cbn. rewrite app_nil_r. reflexivity.
+      split; [repeat split; assumption|]. unfold intsp_src; cbn [i_neg i_ds i_exp]; app_norm; reflexivity.
 Qed.
